@@ -183,6 +183,34 @@ pub fn deviations_ex(cfg: &AttackCfg, r: &RefRun, seed: u64, also_live: bool) ->
             }
             _ => {}
         }
+        // checks that aggregate over the indices of a vector must not let an even number of bad
+        // entries cancel: the same single-entry edit at two (and at four) different indices
+        if len >= 4 {
+            let mk_at = |j: usize, field: Option<usize>, op: LeafOp| -> (Vec<usize>, LeafOp) {
+                let mut p = vec![j];
+                if let Some(f) = field {
+                    p.push(f);
+                }
+                (p, op)
+            };
+            let mut js: Vec<usize> = (0..len).collect();
+            js.shuffle(&mut rng);
+            let multi: Option<(&str, Box<dyn Fn(usize) -> Vec<(Vec<usize>, LeafOp)>>)> = match s.phase.as_str() {
+                "flaand" => Some(("e", Box::new(move |j| vec![mk_at(j, Some(0), LeafOp::FlipBool)]))),
+                "haand" => Some(("h0+h1", Box::new(move |j| vec![mk_at(j, Some(0), LeafOp::FlipBool), mk_at(j, Some(1), LeafOp::FlipBool)]))),
+                "flaand hash" => Some(("check-value", Box::new(move |j| vec![mk_at(j, None, LeafOp::XorU128(vec![1]))]))),
+                "fabitn" => Some(("check-bit", Box::new(move |j| vec![mk_at(j, Some(0), LeafOp::FlipBool)]))),
+                "fashare di_bi" => Some(("opening", Box::new(move |j| vec![mk_at(j, None, LeafOp::XorU128(vec![1]))]))),
+                "faand" => Some(("beaver-d", Box::new(move |j| vec![mk_at(j, Some(0), LeafOp::FlipBool)]))),
+                _ => None,
+            };
+            if let Some((what, f)) = multi {
+                for count in [2usize, 4] {
+                    let e: Vec<(Vec<usize>, LeafOp)> = js.iter().take(count).flat_map(|j| f(*j)).collect();
+                    edits.push((tag(&format!("{what}-at-{count}-indices")), MutSpec::Multi(e)));
+                }
+            }
+        }
         for (kind, mu) in edits {
             // single-recipient tamper
             push(format!("{kind}:one-recipient"), vec![(si, mu.clone())], vec![s.to], &mut out);
